@@ -148,11 +148,13 @@ namespace TAO_PEGTL_NAMESPACE
          static_assert( !( has_apply && is_nothing ), "unexpected apply() defined" );
          static_assert( !( has_apply0 && is_nothing ), "unexpected apply0() defined" );
 
-         if constexpr( !has_apply && std::is_base_of_v< require_apply, Action< Rule > > ) {
+         // Only diagnose while actions are enabled: with apply_mode::nothing has_apply is false by construction,
+         // and for an action that does define apply() the "diagnostic" below compiles and would call it.
+         if constexpr( enable_action && !has_apply && std::is_base_of_v< require_apply, Action< Rule > > ) {
             internal::missing_apply< Control< Rule >, Action >( in, st... );
          }
 
-         if constexpr( !has_apply0 && std::is_base_of_v< require_apply0, Action< Rule > > ) {
+         if constexpr( enable_action && !has_apply0 && std::is_base_of_v< require_apply0, Action< Rule > > ) {
             internal::missing_apply0< Control< Rule >, Action >( in, st... );
          }
 
